@@ -5,8 +5,8 @@
    att_output (= l2cap_output; since fix/C08-C11-notification-path an indication that was dequeued but not sent
    is not left outstanding: unsent_indication), handle_confirmation, request (= the l2cap layer's callback). *)
 From BT Require Import Base.ListX AttDb.AttDbModel NQueue.NQueueModel NQueue.NQueueSpec NQueue.NQueueProofs
-  AttSrv.AttSrvModel AttSrv.AttSrvFrame AttSrv.AttSrvNotifSpec AttSrv.AttSrvSpecC11 AttSrv.AttSrvProofsC11
-  AttSrv.AttSrvNotifExamples.
+  NQueue.NQueueDrain AttSrv.AttSrvModel AttSrv.AttSrvFrame AttSrv.AttSrvNotifSpec AttSrv.AttSrvNotifObs AttSrv.AttSrvSpecC11
+  AttSrv.AttSrvProofsC11 AttSrv.AttSrvProofsC11Live AttSrv.AttSrvNotifExamples.
 Local Open Scope N_scope.
 
 (* ---- queue level (proved for C12, any level sizes, any operation sequence): the monitor of NQueueSpec.v
@@ -63,16 +63,72 @@ Theorem C11_confirmation_ends_the_wait :
 Proof. exact confirmation_good. Qed.
 Print Assumptions C11_confirmation_ends_the_wait.
 
-(* ---- never lost. The full statement (bounded liveness): whenever an indication request for a subscribed
-   characteristic is pending on a connection, polling l2cap_output (buffer >= 23) and confirming every
-   transmitted indication transmits it after at most (number of pending requests + 1) rounds. NOT PROVED as
-   one theorem. Its parts: C11_queue_level (every pending eligible request is dequeued: deq_empty,
-   deq_round), C11_indication_only_when_none_outstanding (a request that is consumed without a PDU does
-   not block the queue - this is what the fix established; before it the statement was false, witness
-   corpus/C11/unsent_indication_blocks.trace), C11_confirmation_ends_the_wait. The monitor clause
-   indication_lost checks the composed statement on every implementation trace. *)
-Definition C11_never_lost_full : Prop :=
-  forall c ops, wf c -> monitor11 c (srv_run c (srv_init c) ops) = None.
+(* ---- NEVER LOST (bounded progress). For every well formed configuration, every reachable state (any history),
+   every connection cid and every queue index i: if the indication request for i is pending in the queue of cid,
+   then after fewer than 2 * (size of the queue) rounds of (Handle Value Confirmation of length 1; l2cap_output
+   poll with a buffer of >= 23 bytes) the poll takes exactly that request from the queue, with no indication
+   outstanding - whatever else is pending, and whether or not the other requests can be transmitted (an
+   indication that is consumed without a PDU does not block: the repaired defect). MTU, CCCDs and link security
+   of the connection are untouched meanwhile. Hypothesis: l2cap_output does not FAULT (C01's property).
+   Composition of the queue abstraction of C12 (NQueueProofs.step_rel; NQueueDrain.dequeue_abs: 'empty' only if
+   nothing is eligible, a dequeue removes exactly one pending request) with C11_indication_only_when_none_
+   outstanding / C11_confirmation_ends_the_wait; induction on the number of pending requests. *)
+Theorem C11_never_lost :
+  forall c cid n i ops k,
+    wf c -> default_att_mtu <= n ->
+    (forall st, (exists k, get_conn st cid = Some k) -> att_output c st cid n <> None) ->
+    let st := srv_after c (srv_init c) ops in
+    get_conn st cid = Some k -> pending_ind (nq k) i ->
+    exists j, (j < 2 * qsize (nq k))%nat /\
+      exists kj q1,
+        get_conn (fst (srv_step c (srv_after c st (rounds cid n j)) (OpIn cid [30] n))) cid = Some kj
+        /\ same_but_queue k kj /\ out_of kj = None
+        /\ NQueueModel.step (nq kj) Dequeue = (q1, OEntry (Some (KInd, i))).
+Proof. exact indication_never_lost. Qed.
+Print Assumptions C11_never_lost.
+
+(* ... a request that the queue accepts is pending (queue_indication( i ), i inside the queue) ... *)
+Theorem C11_accepted_request_is_pending :
+  forall s m i, st_rel s m -> (i < qsize s)%nat -> pending_ind (fst (NQueueModel.step s (QueueI i))) i.
+Proof. exact queue_indication_pending. Qed.
+Print Assumptions C11_accepted_request_is_pending.
+
+(* ... and the request taken from the queue IS transmitted when the client is subscribed (CCCD bit 2 at store
+   position i), the buffer holds 3 bytes and the value attribute can be read: 1D <handle> <value> *)
+Theorem C11_dequeued_indication_is_transmitted :
+  forall c st cid n k q1 i a s1 d,
+    get_conn st cid = Some k ->
+    NQueueModel.step (nq k) Dequeue = (q1, OEntry (Some (KInd, i))) ->
+    let ai := fst (find_notification_data_by_index c (N.of_nat i)) in
+    let st1 := set_conn st cid (mkConn (client_mtu k) (cccd k) (encrypted k) (pairing k) q1) in
+    negb (N.land (cccd_get (cccd k) (N.of_nat i)) 2 =? 0) = true ->
+    3 <= N.min n (negotiated_mtu c k) ->
+    attribute_at c ai = Some a ->
+    access_read c st1 cid a ai 0 (N.min n (negotiated_mtu c k) - 3) = Some (s1, Success, d) ->
+    att_output c st cid n = Some (s1, 29 :: le16 (handle_by_index c ai) ++ d).
+Proof. exact att_output_sends. Qed.
+Print Assumptions C11_dequeued_indication_is_transmitted.
+
+(* in every reachable state the queue of every connection has such an abstraction (so pending_ind is meaningful) *)
+Theorem C11_queue_abstraction_in_every_reachable_state :
+  forall c ops j k, wf c -> get_conn (srv_after c (srv_init c) ops) j = Some k ->
+    (exists m, st_rel (nq k) m) /\ default_att_mtu <= client_mtu k.
+Proof. exact queue_abstraction_reachable. Qed.
+Print Assumptions C11_queue_abstraction_in_every_reachable_state.
+
+(* ---- the trace level statement for the safety clauses (fault, two_outstanding, bad_confirmation_accepted):
+   for EVERY configuration and EVERY operation sequence whose model trace contains no FAULT the monitor accepts
+   the model's trace. By simulation: whenever the observer waits for a confirmation, the model's queue does. *)
+Theorem C11_monitor_core_accepts_model :
+  forall c ops, no_fault (srv_run c (srv_init c) ops) -> monitor11_core c (srv_run c (srv_init c) ops) = None.
+Proof. exact monitor11_core_accepts_model. Qed.
+Print Assumptions C11_monitor_core_accepts_model.
+
+(* the full monitor adds the bounded-liveness clauses indication_lost / notification_blocked (check11_live: the
+   slack counter). Their trace level soundness is NOT PROVED (it needs the simulation of the observer's requested
+   / must sets with the queue bits); C11_never_lost is the statement they approximate on finite traces. *)
+Definition C11_monitor_accepts_model_full : Prop :=
+  forall c ops, wf c -> no_fault (srv_run c (srv_init c) ops) -> monitor11 c (srv_run c (srv_init c) ops) = None.
 
 (* ---- non-vacuity *)
 Example C11_wf_nonvacuous : wf cfg_n4_mtu24 /\ wf cfg_p9_mtu65.
